@@ -47,12 +47,15 @@ VARIABLES
     kfFw,       \* firewalls implicated in a KF_TFC root in this epoch
     bpSkip,     \* Fw/Pj nodes whose last value change was not followed by
                 \* backward projection propagation (KF_PBP call sites)
+    histIn,     \* sequence of committed input functions (one per commit)
+    crashed,    \* the engine was reopened on a crash prefix of its store
     viol,       \* sequence of violation records
     stats       \* counters of what was checked
 
 obsVars == <<prog, inputs, pend, insess, refreshing, world, sample, pendSample,
              epoch, live, snap, lastRun, ran, running, tainted, outLast, outPrev,
-             kfTaint, nested, topDone, bpSkip, spSeen, kfFw, kfHard, viol, stats>>
+             kfTaint, nested, topDone, bpSkip, spSeen, kfFw, kfHard, histIn, crashed,
+             viol, stats>>
 
 N == Len(prog.nodes)
 Ids == 1..N
@@ -88,6 +91,8 @@ InitFor(p) ==
     /\ spSeen = {}
     /\ kfFw = {}
     /\ kfHard = [n \in 1..Len(p.nodes) |-> ""]
+    /\ histIn = <<>>
+    /\ crashed = FALSE
 
 (* Environment of source nodes under a given input snapshot.               *)
 EnvOf(inp) ==
@@ -100,7 +105,8 @@ ValNow == Valuation(prog, EnvOf(inputs))
 ValAt(t) == Valuation(prog, EnvOf(snap[t]))
 
 VK(idx, kind, n, got, want, kf) ==
-    [at |-> idx, kind |-> kind, n |-> n, got |-> got, want |-> want, ep |-> epoch, kf |-> kf]
+    [at |-> idx, kind |-> kind, n |-> n, got |-> got, want |-> want, ep |-> epoch, kf |-> kf,
+     cr |-> crashed]
 V(idx, kind, n, got, want) == VK(idx, kind, n, got, want, "")
 
 (* ---- known-finding signatures (see /verif/known_findings.json) ---------*)
@@ -190,6 +196,7 @@ sessVars == <<inputs, pend, insess, refreshing, sample, pendSample, epoch>>
 rdrVars  == <<live, snap>>
 runVars  == <<lastRun, ran, running, tainted, outLast, outPrev>>
 kfVars   == <<kfTaint, nested, topDone, bpSkip, spSeen, kfFw, kfHard>>
+crVars   == <<histIn, crashed>>
 
 Begin(idx) ==
     /\ insess' = TRUE
@@ -199,7 +206,7 @@ Begin(idx) ==
                ELSE IF live # {} THEN Append(viol, V(idx, "session_with_live_reader", 0, 0, 0))
                ELSE viol
     /\ UNCHANGED <<prog, inputs, refreshing, world, sample, epoch, rdrVars,
-                   runVars, kfVars, stats>>
+                   runVars, kfVars, stats, crVars>>
 
 (* C01: the result of set_input tells whether the stored value changed.    *)
 SetResult(n, v) ==
@@ -214,16 +221,16 @@ Set(idx, n, v, r) ==
                ELSE viol
     /\ stats' = Bump("sets")
     /\ UNCHANGED <<prog, inputs, insess, refreshing, world, sample, pendSample,
-                   epoch, rdrVars, runVars, kfVars>>
+                   epoch, rdrVars, runVars, kfVars, crVars>>
 
 World(idx, n, v) ==
     /\ world' = [world EXCEPT ![n] = v]
-    /\ UNCHANGED <<prog, sessVars, rdrVars, runVars, kfVars, viol, stats>>
+    /\ UNCHANGED <<prog, sessVars, rdrVars, runVars, kfVars, viol, stats, crVars>>
 
 RefreshStart(idx) ==
     /\ refreshing' = TRUE
     /\ UNCHANGED <<prog, inputs, pend, insess, world, sample, pendSample, epoch,
-                   rdrVars, runVars, kfVars, viol, stats>>
+                   rdrVars, runVars, kfVars, viol, stats, crVars>>
 
 (* After refresh() returned every external node that had been sampled      *)
 (* before must have been re-sampled (its executor ran during the refresh).  *)
@@ -235,7 +242,7 @@ Refresh(idx) ==
                   THEN Append(viol, V(idx, "refresh_skipped_external", CHOOSE n \in missed : TRUE, 0, 0))
                   ELSE viol
     /\ UNCHANGED <<prog, inputs, pend, insess, world, sample, pendSample, epoch,
-                   rdrVars, runVars, kfVars, stats>>
+                   rdrVars, runVars, kfVars, stats, crVars>>
 
 Commit(idx) ==
     /\ inputs' = [n \in Ids |-> IF pend[n] # None THEN pend[n] ELSE inputs[n]]
@@ -251,6 +258,9 @@ Commit(idx) ==
     /\ stats' = Bump("commits")
     /\ spSeen' = StaleProj({}, lastRun, outLast, bpSkip)
     /\ kfFw' = {}
+    /\ histIn' = IF crashed THEN histIn
+                 ELSE Append(histIn, [n \in Ids |-> IF pend[n] # None THEN pend[n] ELSE inputs[n]])
+    /\ crashed' = crashed
     /\ UNCHANGED <<prog, world, rdrVars, lastRun, running, tainted, outLast, outPrev,
                    nested, topDone, bpSkip, kfHard>>
 
@@ -258,11 +268,11 @@ Tracked(idx, t) ==
     /\ live' = live \cup {t}
     /\ snap' = [snap EXCEPT ![t] = inputs]
     /\ viol' = IF insess THEN Append(viol, V(idx, "reader_during_session", t, 0, 0)) ELSE viol
-    /\ UNCHANGED <<prog, sessVars, world, runVars, kfVars, stats>>
+    /\ UNCHANGED <<prog, sessVars, world, runVars, kfVars, stats, crVars>>
 
 DropTracked(idx, t) ==
     /\ live' = live \ {t}
-    /\ UNCHANGED <<prog, sessVars, world, snap, runVars, kfVars, viol, stats>>
+    /\ UNCHANGED <<prog, sessVars, world, snap, runVars, kfVars, viol, stats, crVars>>
 
 (* C01/C04: a value handed to the user equals the from-scratch value under *)
 (* the inputs committed when the reader's tracked engine was handed out.   *)
@@ -281,7 +291,7 @@ Query(idx, t, n, v) ==
     /\ bpSkip' = IF n \in topDone THEN bpSkip \cup {n} ELSE bpSkip
     /\ topDone' = {}
     /\ spSeen' = spSeen \cup StaleProj(ran, lastRun, outLast, bpSkip')
-    /\ UNCHANGED <<prog, sessVars, world, rdrVars, runVars, nested, kfFw, kfHard>>
+    /\ UNCHANGED <<prog, sessVars, world, rdrVars, runVars, nested, kfFw, kfHard, crVars>>
 
 (* C02: one query key is never executed by two executors at once.          *)
 Enter(idx, n) ==
@@ -289,7 +299,7 @@ Enter(idx, n) ==
     /\ viol' = IF n \in running THEN Append(viol, V(idx, "overlap", n, 0, 0)) ELSE viol
     /\ nested' = IF running # {} THEN nested \cup {n} ELSE nested \ {n}
     /\ UNCHANGED <<prog, sessVars, world, rdrVars, lastRun, ran, tainted,
-                   outLast, outPrev, kfTaint, topDone, bpSkip, spSeen, kfFw, kfHard, stats>>
+                   outLast, outPrev, kfTaint, topDone, bpSkip, spSeen, kfFw, kfHard, stats, crVars>>
 
 ReadsOf(n) == lastRun[n].reads
 
@@ -316,7 +326,7 @@ Read(idx, n, d, v) ==
         /\ kfFw' = IF bad /\ KfTfc(d, val)
                     THEN kfFw \cup (TransDeps(d) \cap PendingFirewalls(val)) ELSE kfFw
         /\ stats' = Bump("reads")
-        /\ UNCHANGED <<prog, sessVars, world, rdrVars, runVars, nested, topDone, bpSkip, spSeen, kfHard>>
+        /\ UNCHANGED <<prog, sessVars, world, rdrVars, runVars, nested, topDone, bpSkip, spSeen, kfHard, crVars>>
 
 (* A complete executor run of a non-external node.                         *)
 ExecNormal(idx, n, reads, out) ==
@@ -348,7 +358,7 @@ ExecNormal(idx, n, reads, out) ==
                                   !.justified = @ + (IF lastRun[n].has THEN 1 ELSE 0)]
         \* the run consumed a stale value (marked by Read) or not
         /\ kfHard' = [kfHard EXCEPT ![n] = IF BadReads(reads, val) # {} THEN kfTaint[n] ELSE ""]
-        /\ UNCHANGED <<prog, sessVars, world, rdrVars, kfTaint, nested, kfFw>>
+        /\ UNCHANGED <<prog, sessVars, world, rdrVars, kfTaint, nested, kfFw, crVars>>
 
 (* C03: an external-input executor runs only on first demand or refresh.   *)
 ExecExternal(idx, n, out) ==
@@ -368,7 +378,7 @@ ExecExternal(idx, n, out) ==
     /\ running' = running \ {n}
     /\ stats' = Bump("execs")
     /\ UNCHANGED <<prog, inputs, pend, insess, refreshing, world, epoch, rdrVars,
-                   lastRun, ran, tainted, outLast, outPrev, kfVars>>
+                   lastRun, ran, tainted, outLast, outPrev, kfVars, crVars>>
 
 (* A run that was unwound (cycle payload, panic) or cancelled: it leaves   *)
 (* no read-set behind, and the next run needs no justification.            *)
@@ -377,7 +387,7 @@ ExecCut(idx, n) ==
     /\ tainted' = tainted \cup {n}
     /\ lastRun' = [lastRun EXCEPT ![n] = [has |-> FALSE, reads |-> <<>>]]
     /\ stats' = Bump("cyc")
-    /\ UNCHANGED <<prog, sessVars, world, rdrVars, ran, outLast, outPrev, kfVars, viol>>
+    /\ UNCHANGED <<prog, sessVars, world, rdrVars, ran, outLast, outPrev, kfVars, viol, crVars>>
 
 (* C07: a clean restart changes nothing observable.                        *)
 Restart(idx) ==
@@ -386,5 +396,48 @@ Restart(idx) ==
     /\ viol' = IF insess THEN Append(viol, V(idx, "restart_in_session", 0, 0, 0)) ELSE viol
     /\ stats' = Bump("restarts")
     /\ UNCHANGED <<prog, sessVars, world, snap, lastRun, ran, tainted, outLast,
-                   outPrev, kfVars>>
+                   outPrev, kfVars, crVars>>
+(* C08: the process died; a new engine was opened on a prefix of the       *)
+(* physical commits.  Nothing is known about what it remembers, so every   *)
+(* executor run is justified from here on.                                 *)
+Crash(idx) ==
+    /\ crashed' = TRUE
+    /\ histIn' = histIn
+    /\ insess' = FALSE /\ refreshing' = FALSE
+    /\ pend' = NoneFn /\ pendSample' = NoneFn
+    /\ sample' = NoneFn
+    /\ live' = {} /\ running' = {} /\ ran' = {}
+    /\ tainted' = Ids
+    /\ lastRun' = [n \in Ids |-> [has |-> FALSE, reads |-> <<>>]]
+    /\ outLast' = NoneFn /\ outPrev' = NoneFn
+    /\ kfTaint' = [n \in Ids |-> ""] /\ kfHard' = [n \in Ids |-> ""]
+    /\ nested' = {} /\ topDone' = {} /\ bpSkip' = {} /\ spSeen' = {} /\ kfFw' = {}
+    /\ stats' = Bump("restarts")
+    /\ UNCHANGED <<prog, inputs, world, epoch, snap, viol>>
+
+Absent == -100
+
+(* The inputs the reopened engine shows must be those of some committed    *)
+(* session (or nothing at all, before the first session became durable).   *)
+Recovered(idx, obs) ==
+    LET f == [n \in Ids |-> IF \E i \in 1..Len(obs) : obs[i][1] = n
+                            THEN obs[CHOOSE i \in 1..Len(obs) : obs[i][1] = n][2]
+                            ELSE None]
+        present == {n \in Ids : f[n] # None /\ f[n] # Absent}
+        \* an absent input was probed by the harness, which makes the engine
+        \* remember the probe's placeholder value for it
+        asInputs == [n \in Ids |-> IF n \in present THEN f[n]
+                                   ELSE IF prog.nodes[n].kind = "In" THEN Absent ELSE None]
+        asCommitted == [n \in Ids |-> IF n \in present THEN f[n] ELSE None]
+        ok == \/ present = {}
+              \/ \E e \in 1..Len(histIn) : histIn[e] = asCommitted
+    IN  /\ inputs' = asInputs
+        /\ viol' = IF ok THEN viol
+                   ELSE Append(viol, V(idx, "recovered_inputs_not_a_committed_state", 0, 0, 0))
+        /\ UNCHANGED <<prog, pend, insess, refreshing, world, sample, pendSample, epoch,
+                       rdrVars, runVars, kfVars, crVars, stats>>
+
+CrashPanic(idx) ==
+    /\ viol' = Append(viol, V(idx, "crash_open_panic", 0, 0, 0))
+    /\ UNCHANGED <<prog, sessVars, world, rdrVars, runVars, kfVars, crVars, stats>>
 =============================================================================
